@@ -22,10 +22,15 @@ class Rnd:
         self.r = _stdrandom.Random(seed)
         self.log = []
         self.forced = collections.deque()   # values to return instead of drawing
+        self.choices_seen = []              # the option lists of the choice() calls (exploration of the real code)
 
     def _take(self, kind, draw, ok=lambda x: True):
-        if self.forced:
+        # a forced entry ("K", kind, value) only serves a draw of that kind; a bare value serves the next draw
+        tagged = bool(self.forced) and isinstance(self.forced[0], tuple) and len(self.forced[0]) == 3 and self.forced[0][0] == "K"
+        if self.forced and (not tagged or self.forced[0][1] == kind):
             v = self.forced.popleft()
+            if tagged:
+                v = v[2]
             if not ok(v):
                 raise ForcedMismatch("forced draw %r not possible for %s" % (v, kind))
         else:
@@ -35,6 +40,7 @@ class Rnd:
 
     def choice(self, seq):
         seq = list(seq)
+        self.choices_seen.append(seq)
         return self._take("choice", lambda: self.r.choice(seq), lambda v: v in seq)
 
     def random(self):
